@@ -1,9 +1,9 @@
 package sim
 
 import (
-	"runtime"
-	"os"
 	"fmt"
+	"os"
+	"runtime"
 	"time"
 )
 
@@ -14,8 +14,8 @@ func init() {
 		Level: "exploration",
 		Rule: "one run = 2..4 lock contenders (own VFS + lock object each) doing 1..3 acquire/hold/release cycles over one SimDisk, every afero call a scheduling point chosen by the seeded scheduler; " +
 			"non-trivial = at least one acquire attempt found the lock directory present (mkdir EEXIST) ; distinct = distinct digest of the full (time, client, op, path, result) trace",
-		Real: []string{"utils/filesystem lockfile.go (TryLock, Lock, LockWithTimeout, Unlock, ReleaseIfStale, IsStale, heartbeat goroutine)", "utils/filesystem files.go (Rm, Exists, Ls, IsDir, IsEmpty, WriteFile, Chtimes, StatTimes)", "utils/parallelisation (cancel store, RunActionWithTimeoutAndCancelStore)", "avast/retry-go"},
-		Stub: []string{"disk: SimDisk (in-memory POSIX tree, conformance-tested against afero.OsFs)", "time: testing/synctest fake clock", "goroutine scheduling at afero.Fs granularity: seeded scheduler", "client death: operations fail without effect + context cancelled"},
+		Real:        []string{"utils/filesystem lockfile.go (TryLock, Lock, LockWithTimeout, Unlock, ReleaseIfStale, IsStale, heartbeat goroutine)", "utils/filesystem files.go (Rm, Exists, Ls, IsDir, IsEmpty, WriteFile, Chtimes, StatTimes)", "utils/parallelisation (cancel store, RunActionWithTimeoutAndCancelStore)", "avast/retry-go"},
+		Stub:        []string{"disk: SimDisk (in-memory POSIX tree, conformance-tested against afero.OsFs)", "time: testing/synctest fake clock", "goroutine scheduling at afero.Fs granularity: seeded scheduler", "client death: operations fail without effect + context cancelled"},
 		Assumptions: []string{"built with go1.26.8 (testing/synctest) instead of the pinned go1.24.1", "go-deadlock detection disabled (false positives under go1.26.8)", "interleavings at afero.Fs-call granularity; mkdir/remove atomic as on a POSIX or NFS store"},
 	})
 }
